@@ -459,7 +459,8 @@ def rule_connend_queue(chk, prog):
     r = chk.rule("CONNEND-QUEUE", "ActionInfo::addConnEndUpdate interpreted on every sequence of up to three queued end-point changes (end "
                  "type src/tar, user change or pin-follow update): per end type at most one entry is kept; a user change replaces the "
                  "queued entry of its end, a pin-follow update (shape moved) never replaces a queued change and is appended only when its "
-                 "end has none -- so re-attaching an end and moving the old shape in one transaction keeps the user's choice", floor=1)
+                 "end has none -- so re-attaching an end and moving the old shape in one transaction keeps the user's choice; ShapeRef:: and "
+                 "JunctionRef::moveAttachedConns both queue their updates with the pin-move flag set", floor=3)
     fn = prog.fn("Avoid::ActionInfo::addConnEndUpdate")
     n = 0
     bad = None
@@ -489,6 +490,28 @@ def rule_connend_queue(chk, prog):
                     ["%s %s" % ("src" if t == 1 else "tar", "pin-follow" if u else "user") for t, u in seq], got, model)
     r.count(n)
     (r.bad if bad else r.ok)("addConnEndUpdate", fn.where(), bad or "%d sequences" % n)
+    # the two producers of pin-follow updates must mark them as such
+    for q in ("Avoid::ShapeRef::moveAttachedConns", "Avoid::JunctionRef::moveAttachedConns"):
+        f = prog.fn(q)
+        sal = single_assignment_locals(f)
+        cs = [c for c in calls(f) if c.get("cname") == "Avoid::Router::modifyConnector"]
+        r.count()
+        if not cs:
+            r.bad(q, f.where(), "no longer queues an end-point update for the attached connector ends")
+            continue
+        prob = None
+        for c in cs:
+            a = call_args(c)
+            v = None
+            if len(a) >= 4:
+                x = strip_casts(a[3])
+                if x is not None and x.get("k") == "DeclRefExpr" and x.get("did") in sal:
+                    x = strip_casts(sal[x["did"]])
+                v = literal_value(x) if x is not None else None
+            if str(v).lower() not in ("true", "1"):
+                prob = prob or (c, "the update that follows the moved %s is queued as a USER change (pin-move flag %s): ActionInfo::addConnEndUpdate lets it "
+                                "replace a change the user queued for the same end in this transaction" % ("shape" if "ShapeRef" in q else "junction", v))
+        (r.bad if prob else r.ok)(q, f.loc(prob[0]) if prob else f.loc(cs[0]), prob[1] if prob else "pin-move flag true")
 
 
 def rule_pin_position(chk, prog):
@@ -602,8 +625,35 @@ def rule_breakpoint_twins(chk, prog):
         r.bad("breakpoint insertion at both ends", fb.loc(lb[0]), "the two ends differ: ...%s... vs ...%s..." % (where[0][-70:], where[1][-70:]))
 
 
+def rule_checkpoints_on_segment(chk, prog):
+    """Which checkpoints keep a route segment where it is (nudging must not centre a segment past its checkpoint)."""
+    from ..microai.interp import Oracle, default_obj
+    r = chk.rule("CHECKPOINTS-ON-SEGMENT", "Polygon::checkpointsOnSegment(k, modifier) interpreted on a five-point route that has one checkpoint at every "
+                 "position code 0..8 (even codes: on route point code/2, odd codes: inside the segment after it): it returns exactly the "
+                 "checkpoints with code in [2k, 2k+2] -- the segment's two corners and its interior --, without the start corner (2k) for "
+                 "modifier +1 and without the end corner (2k+2) for modifier -1, for every segment k and modifier in {-1, 0, +1} "
+                 "(the contract stated in geomtypes.h; nudging reads it to decide how far a segment may move)", floor=12)
+    fn = prog.fn("Avoid::Polygon::checkpointsOnSegment")
+    for k in range(4):
+        for mod in (-1, 0, 1):
+            cps = Vec([Obj("std::pair", {"first": c, "second": default_obj(prog, "Avoid::Point", {"x": Fraction(c), "y": Fraction(0), "id": 0, "vn": 8})})
+                       for c in (4, 0, 7, 1, 8, 2, 5, 3, 6)], "std::pair<unsigned long, Avoid::Point>")
+            poly = default_obj(prog, "Avoid::Polygon", {"checkpointsOnRoute": cps})
+            it = Interp(prog, Oracle([]))
+            r.count()
+            try:
+                out = it.call(fn, poly, None, None, arg_values=[k, mod])
+            except Unsupported as e:
+                raise AnalysisBroken("checkpointsOnSegment outside the interpreter subset: %s" % e)
+            got = sorted(int(p_.f["x"]) for p_ in out.items)
+            want = [c for c in (2 * k, 2 * k + 1, 2 * k + 2) if not (mod > 0 and c == 2 * k) and not (mod < 0 and c == 2 * k + 2)]
+            (r.ok if got == want else r.bad)("segment %d, modifier %+d" % (k, mod), fn.where(), "" if got == want else
+                                             "returns the checkpoints with codes %s, expected %s" % (got, want))
+
+
 def run(chk):
     prog = chk.load()
+    chk.guard(rule_checkpoints_on_segment, chk, prog)
     chk.guard(rule_pin_offer, chk, prog)
     chk.guard(rule_pin_offer_twins, chk, prog)
     chk.guard(rule_bookkeeping, chk, prog)
